@@ -38,7 +38,7 @@ func (x *Exec) heapVal(env *Env, v Val) Val {
 		return v
 	}
 	switch v.T.Underlying().(type) {
-	case *types.Slice:
+	case *types.Slice, *types.Interface, *types.Pointer, *types.Map:
 	case *types.Basic:
 		if !isString(v.T) {
 			return v
@@ -240,7 +240,7 @@ func (x *Exec) eval(env *Env, e *SExpr) Val {
 	case "index":
 		base := x.eval(env, e.X)
 		i := x.toIndex(x.eval(env, e.Y))
-		return x.indexVal(env.st, base, i)
+		return x.heapVal(env, x.indexVal(env.st, base, i))
 	case "slice":
 		base := x.eval(env, e.X)
 		var lo, hi *Term
